@@ -3,7 +3,7 @@ import json
 import os
 import re
 
-from .kernel import (E, bool_call_switches, ExprBuilder, Loc, access_path, subexprs, variant_edges, is_local, AnchorMissing)
+from .kernel import (specialise_value, E, bool_call_switches, ExprBuilder, Loc, access_path, subexprs, variant_edges, is_local, AnchorMissing)
 from . import families as fam
 from . import life
 from . import sqe
@@ -483,6 +483,91 @@ OPEN_OPTIONS = {
 }
 
 
+def _flags_transfer(g, limit=200):
+    """{(determined mask, value)} of the `flags` field of the OpenOptions returned by builder g, as a function of the
+    flags it was called with, over every path of (the possibly specialised) g; None when something is not understood"""
+    M = 0xffffffff
+    results = set()
+    n = [0]
+
+    def val(env, st, op):
+        if op.get('k') == 'const':
+            c = g.cval(op)
+            return None if c is None else c & M
+        if 'l' not in op:
+            return None
+        if not op['p']:
+            return env.get(op['l'])
+        names = [p_.get('name') for p_ in op['p'] if p_['k'] == 'field']
+        if len(op['p']) == 1 and names == ['flags']:
+            return st.get(op['l'])
+        return None
+
+    def step(env, st, s_):
+        lhs, rv = s_['lhs'], s_['rv']
+        v = None
+        k = rv['k']
+        if k == 'use':
+            if 'l' in rv['op'] and not rv['op']['p'] and rv['op']['l'] in st and not lhs['p']:
+                st[lhs['l']] = st[rv['op']['l']]        # the whole struct moves
+                return True
+            v = val(env, st, rv['op'])
+        elif k == 'bin' and rv['op'] in ('BitAnd', 'BitOr'):
+            a, b = val(env, st, rv['a']), val(env, st, rv['b'])
+            if a is None or b is None:
+                v = None
+            elif isinstance(a, int) and isinstance(b, int):
+                v = (a & b) if rv['op'] == 'BitAnd' else (a | b)
+            elif isinstance(a, tuple) != isinstance(b, tuple):
+                fv, c = (a, b) if isinstance(a, tuple) else (b, a)
+                d, x = fv
+                v = ((d | (~c & M)), x & c) if rv['op'] == 'BitAnd' else ((d | c), x | c)
+        elif k == 'un' and rv['op'] == 'Not':
+            a = val(env, st, rv['a'])
+            v = (~a & M) if isinstance(a, int) else None
+        elif k == 'agg' and (rv.get('adt') or '') == 'fs::OpenOptions' and not lhs['p']:
+            i = rv['fields'].index('flags')
+            fv = val(env, st, rv['ops'][i])
+            if not isinstance(fv, tuple):
+                return False
+            st[lhs['l']] = fv
+            return True
+        names = [p_.get('name') for p_ in lhs['p'] if p_['k'] == 'field']
+        if not lhs['p']:
+            if v is None:
+                env.pop(lhs['l'], None)
+            else:
+                env[lhs['l']] = v
+            return True
+        if len(lhs['p']) == 1 and names == ['flags']:
+            if not isinstance(v, tuple):
+                return False
+            st[lhs['l']] = v
+            return True
+        return True     # stores to other fields
+
+    def walk(bb, env, st, depth):
+        n[0] += 1
+        if n[0] > limit or depth > 60:
+            return False
+        blk = g.blocks[bb]
+        env, st = dict(env), dict(st)
+        for s_ in blk['stmts']:
+            if s_['k'] == 'assign' and not step(env, st, s_):
+                return False
+        t = blk['term']
+        if t['k'] == 'return':
+            if 0 not in st:
+                return False
+            results.add(st[0])
+            return True
+        if t['k'] == 'call':
+            return False
+        return all(walk(s2, env, st, depth + 1) for s2 in g.succ[bb])
+    ok = walk(0, {}, {1: (0, 0)}, 0)
+    return results if ok else None
+
+
 def r6_open_options(r, facts):
     """each OpenOptions builder ORs exactly the open(2) flag(s) of its name into `flags` (table from open(2))"""
     n = 0
@@ -509,21 +594,42 @@ def r6_open_options(r, facts):
                         got.add(str(x[2])[6:])
         n += 1
         r.inst('OpenOptions::%s -> %s' % (meth, sorted(got)), f.where())
+        if meth in ('read', 'write', 'write_only'):
+            continue    # decided by value below (a `match` on the mode leaves no constant names in the code)
         r.require(got == want, 'OpenOptions::' + meth, 'OpenOptions::%s uses open flags %s, open(2) semantics of its name need %s' % (meth, sorted(got), sorted(want)), f.where())
-    # write-only / read-write transitions keep the other bits: `flags &= !O_ACCMODE` precedes the OR
+    # access-mode builders, by value: for each access mode the flags may hold, the bits the method determines
+    # (a bit-mask transfer function over the feasible path: new = (old & !determined) | value) must be exactly the
+    # access-mode bits with the mode open(2) prescribes, or nothing at all
+    # (values from <asm-generic/fcntl.h>, octal there)
+    fc = {}
+    try:
+        for m_ in re.finditer(r'^#define\s+(O_ACCMODE|O_RDONLY|O_WRONLY|O_RDWR)\s+([0-7]+)\b', open('/usr/include/asm-generic/fcntl.h').read(), flags=re.M):
+            fc[m_.group(1)] = int(m_.group(2), 8)
+    except OSError:
+        pass
+    if not r.require(len(fc) == 4, 'fcntl.h', 'access mode constants not found in /usr/include/asm-generic/fcntl.h'):
+        return
+    RD, WR, RW, ACC = fc['O_RDONLY'], fc['O_WRONLY'], fc['O_RDWR'], fc['O_ACCMODE']
+    table = {'read': {RD: None, WR: RW, RW: None}, 'write': {RD: RW, WR: None, RW: None}, 'write_only': {RD: WR, WR: WR, RW: WR}}
     for meth in ('read', 'write', 'write_only'):
         f = facts.fn_opt('fs::OpenOptions::' + meth)
         if f is None:
             continue
-        eb = ExprBuilder(f, multi='phi')
-        ok = False
-        for loc, s in f.assigns():
-            names = [p.get('name') for p in s['lhs']['p'] if p['k'] == 'field']
-            if names[-1:] == ['flags']:
-                e = eb.rvalue(s['rv'])
-                if e[0] == 'bin' and e[1] == 'BitAnd' and any(x[0] == 'un' and x[1] == 'Not' for x in (e[2], e[3])):
-                    ok = True
-        r.require(ok, 'OpenOptions::%s/accmode' % meth, 'OpenOptions::%s does not clear the access mode bits before setting the new mode' % meth, f.where())
+
+        def subj(e):
+            return e[0] == 'bin' and e[1] == 'BitAnd' and any(fam.last_field(y) == 'flags' for y in (e[2], e[3])) and any(y[0] == 'const' and y[1] == ACC for y in (e[2], e[3]))
+        ok = True
+        for v, want in sorted(table[meth].items()):
+            g, decided = specialise_value(f, subj, v, ExprBuilder(f), bits=32)
+            res = _flags_transfer(g)
+            exp = {(0, 0)} if want is None else {(ACC, want)}
+            # (storing back the mode that is already there is the same as leaving it)
+            same = {(ACC, v)} if (want is None or want == v) else set()
+            r.inst('OpenOptions::%s with access mode %d: determines %s' % (meth, v, sorted(res) if res is not None else None), f.where())
+            if res is None or not res or not all(x in exp or x in same for x in res):
+                ok = False
+                r.bad('OpenOptions::%s/accmode' % meth, 'with access mode %d OpenOptions::%s determines the flag bits %s (mask, value), expected %s: the access mode is wrong or other flags are lost' % (
+                    v, meth, sorted(res) if res else res, sorted(exp)), f.where())
     # mode(): writes self.mode from the parameter; default 0o666
     f = facts.fn_opt('fs::OpenOptions::mode')
     if r.require(f is not None, 'OpenOptions::mode', 'OpenOptions::mode not found'):
